@@ -1062,6 +1062,14 @@ fn main() {
     // F11 (fixed by 4e93dec): first n of a 4-phrase leaf
     let es: Vec<E> = ["測", "冊", "a", "é"].iter().map(|t| (ce4.clone(), t.to_string(), 1u32, None)).collect();
     guarded(&mut cx, "F11 witness", |cx| run_trie(cx, &p, &mut Rng::new(1), Some((vec![ce4.clone(), c.clone()], es))));
+    // comparator of TrieBuilder::write (fixed by ddfe893): a leaf mixing single characters with longer phrases — the
+    // single characters come first whatever their UTF-8 length (before the fix the 4-byte single character U+20000
+    // sorted after the 2-byte phrase "ab"); the model's leaf order (C09.leaf_order_is_C11) must reproduce the lookup
+    let es: Vec<E> = [("ab", 1u32), ("\u{20000}", 1), ("測試", 5), ("a", 7), ("cd", 5)]
+        .iter()
+        .map(|(t, f)| (ce4.clone(), t.to_string(), *f, None))
+        .collect();
+    guarded(&mut cx, "mixed leaf witness", |cx| run_trie(cx, &p, &mut Rng::new(1), Some((vec![ce4.clone(), c.clone()], es))));
 
     // ---- random histories
     let scale = if thorough { 20 } else { 1 };
